@@ -182,6 +182,16 @@ func runC15(c *core.Ctx) *core.Outcome {
 			}
 			if st.ExecErr != "" {
 				lastErr = st.ExecErr
+				// the malformed tail must not come back as pending code: whatever the client sends next, the
+				// session does not go on from inside the instruction that was just refused
+				if derr != nil && !hasNoop && !moved {
+					nx := s.Request([]byte("1"), false)
+					o.Counts["requests"]++
+					if nx.Panic == "" && nx.ExecErr == "" && nx.Cont {
+						addV("vm-resumes-after-malformed-instruction", map[string]string{"why": derr.Why}, "the record damaged by %s is malformed at instruction %d (%s); request %d failed with %q, but the next request on the same engine succeeded (output %s): execution went on behind the rejected instruction (record %x)", desc, derr.Inst, derr.Why, ri, st.ExecErr, short(nx.Out), b)
+						return
+					}
+				}
 				break
 			}
 			okRequests++
